@@ -167,6 +167,9 @@ func genChoices(r *rand.Rand, nUE int) refamf.Choices {
 	ch.BackupAMFName = r.Intn(3) == 0
 	ch.AfterRegMsg = pick(r, 0, 0, 0, 1, 2, 3)
 	ch.SetupReqLen = pick(r, 0, 0, 0, 0, 2048, 2048, 2047, 1024, 600+r.Intn(1400))
+	ch.TrailingNewerIE = pick(r, 0, 0, 1, 2, 3)
+	ch.TrailingValue = rbytes(r, 1+r.Intn(12))
+	ch.TrailingValue[0] = pick(r, byte(0x40), 0x80, 0xc1, 0xff, byte(len(ch.TrailingValue)-1), ch.TrailingValue[0]) // read as a length it would not fit
 	ch.NGSetupRespLen = pick(r, 0, 0, 0, 0, 2048, 2048, 2047, 1024, 512, 300+r.Intn(1700))
 	return ch
 }
